@@ -315,7 +315,7 @@ def run(tier):
     big = gen_big(ck, cfg["big"])
 
     def trace_job(api, exe, tag, hs):
-        recs2 = vseam.run_parallel(exe, hs, nproc=2)
+        recs2 = vseam.rerun_hung(exe, hs, vseam.run_parallel(exe, hs, nproc=2))
         acc, found, trans, nev = validate("%s_%s" % (api, tag), hs, recs2, api)
         by2 = vlib.group_records(recs2)
         keys = set()
@@ -340,7 +340,7 @@ def run(tier):
     def replay_job(api, exe):
         recs = vseam.run_parallel(exe, behs, nproc=4)
         by = vlib.group_records(recs)
-        mms = vlib.compare(behs, recs, match)
+        mms = vseam.recheck_transient(exe, behs, vlib.compare(behs, recs, match), match)
         keys = set(callseq(beh) for b, beh in enumerate(behs) if nontrivial(by.get(b, [])))
         return api, mms, [prev_of(by, mm) for mm in mms], keys
     rjobs = [pool.submit(replay_job, api, exe) for api, exe in drivers]
